@@ -1188,6 +1188,7 @@ def run(ck: core.Check):
                 "created_outside_emitted_inside_body": stats["created_outside_emitted_inside_body"],
             },
             "runtime_notes": dict(notes),
+            "onnxruntime_child_process_crashes_survived": L.ort_crashes(),
         }
     )
     ck.exhaustive = False
